@@ -1,7 +1,7 @@
 (* Properties/C06.v — ONLY property theorems of C06 (each closed by [exact lemma]) and their
    Print Assumptions.  The definitions they speak about (C06.Ref) are re-derived from /repo's
    source on every run (coq/gen/C06/GenEq.v). *)
-From Precond Require Import Base.PyLib C06.Ref C06.MergeProofs C06.BlockProofs.
+From Precond Require Import Base.PyLib Base.Tensor C06.Ref C06.MergeProofs C06.TensorProofs C06.BlockProofs.
 Open Scope Z_scope.
 
 (* merge_small_dims: the result is the list of products (>1) of a contiguous grouping of the input,
@@ -74,3 +74,27 @@ Theorem c06_slots_total : forall ptype (ps : list Z) rank i,
   exists r, preconds_for_grad ptype ps rank (i * np) ((i + 1) * np) = Some r /\ zlen r = rank.
 Proof. exact preconds_for_grad_total. Qed.
 Print Assumptions c06_slots_total.
+
+(* Tensor level (any element type, any rank/shape/block size): splitting along an axis and
+   concatenating back is the identity, and BlockPartitioner.merge_partitions (partition t) = t with
+   the split sizes computed by the (translated) BlockPartitioner.__init__. *)
+Theorem c06_concat_split_axis : forall (A : Type) axis sizes (t : tensor A),
+  wf A t -> (axis < length (t_shape t))%nat -> sumn sizes = nth axis (t_shape t) 0%nat -> sizes <> [] ->
+  concat_axis axis (split_axis axis sizes t) = t.
+Proof. exact concat_split_axis. Qed.
+Print Assumptions c06_concat_split_axis.
+
+Theorem c06_partition_merge_id : forall (A : Type) (shape : list Z) (b : Z) (data : list A),
+  Forall (fun d => 1 <= d) shape ->
+  length data = prodn (map Z.to_nat shape) ->
+  let ss := nat_split_sizes shape b in
+  let t := mkT (map Z.to_nat shape) data in
+  merge_partitions ss (partition ss t) = t.
+Proof. exact @partition_merge_id. Qed.
+Print Assumptions c06_partition_merge_id.
+
+(* non-vacuity *)
+Example c06_partition_example :
+  map (@t_data Z) (partition (nat_split_sizes [2; 3] 2) (mkT [2; 3]%nat [1; 2; 3; 4; 5; 6]))
+  = [[1; 2; 4; 5]; [3; 6]].
+Proof. reflexivity. Qed.
